@@ -298,7 +298,13 @@ func build(routes []string, methods []string, order []int, o opts, hit *hitRec) 
 	for _, i := range order {
 		i := i
 		m := methods[i]
-		e.Handle(m, routes[i], func(c context.Context, ctx *app.RequestContext) { hit.idx = i; hit.method = m })
+		h := func(c context.Context, ctx *app.RequestContext) { hit.idx = i; hit.method = m }
+		if p := routes[i]; len(p) > 1 && strings.HasSuffix(p, "/") && (len(p)+o.nmw)%2 == 0 {
+			// the same pattern spelled as a group plus the empty relative path
+			e.Group(p).Handle(m, "", h)
+			continue
+		}
+		e.Handle(m, routes[i], h)
 	}
 	return e, true
 }
